@@ -33,8 +33,8 @@ PROPS = {
                    "reader that supplies gateway/CIDR of pool ENIs (replaced by generated values), ENI index lookup, and what the "
                    "datapath drivers do with the SetupConfig (C13).",
         tests=[
-            dict(unit="c12", test="TestVerifC12World", quick=5000, thorough=300000),
-            dict(unit="c12", test="TestVerifC12Parse", quick=6000, thorough=400000),
+            dict(unit="c12", test="TestVerifC12World", quick=10000, thorough=300000),
+            dict(unit="c12", test="TestVerifC12Parse", quick=10000, thorough=400000),
             dict(unit="c12", test="TestVerifC12DefaultRoute", quick=4000, thorough=200000, shards_quick=2),
             dict(unit="c12", test="TestVerifC12DatapathTable", quick=1000, thorough=20000, shards_quick=1, shards_thorough=2),
         ],
